@@ -19,6 +19,7 @@ func main() {
 		}
 	}
 	r.Register("hist", dh.RunHist)
+	r.Register("histf", dh.RunHistFresh)
 	r.Register("stale", dh.RunStale)
 	if r.Replayed() {
 		return
@@ -26,9 +27,9 @@ func main() {
 	dh.Corpus(r)
 	dh.Generate(r, 2, []int{1, 2, 3}, dh.NCfg)
 	if r.Thorough() {
-		dh.Exhaustive(r, 2, 4, 13)
-		dh.Exhaustive(r, 3, 5, 8)
+		dh.Exhaustive(r, "hist", 2, 4, 14)
+		dh.Exhaustive(r, "histf", 3, 5, 8)
 	} else {
-		dh.Exhaustive(r, 3, 3, 13)
+		dh.Exhaustive(r, "hist", 3, 3, 14)
 	}
 }
